@@ -27,7 +27,8 @@ SIG_VARIANTS = ("probe", "valid", "other-session", "alt-username", "alt-service"
                 "alt-algorithm", "alt-keyblob", "sigbit", "wrong-key", "replayed")
 # "replayed": a genuine request recorded verbatim in another session (signed by the real client code)
 # Malformed encodings of a signature made over the right data by the right key (the named algorithm is kept so
-# that verification is reached): last byte of the signature blob cut off, empty blob, blob field missing,
+# that verification is reached): last byte of the signature blob cut off (and one bit before the cut
+# flipped, so that zero-padding cannot restore it), empty blob, blob field missing,
 # blob of the right length with all bits set.  None of them is a valid signature; some make a verifier raise
 # instead of answering "no".  (A blob with trailing bytes is deliberately absent: ECDSA's (r, s) ignore
 # them, the proof of possession is intact, and the statement does not demand canonical encodings.)
